@@ -101,7 +101,7 @@ func ParseConfig(b []byte) (*Config, error) {
 		msg := strings.ReplaceAll(err.Error(), "\n", " ")
 		return nil, errors.New(msg)
 	}
-	for pat := range c.Paths {
+	for _, pat := range sortedKeys(c.Paths) {
 		if !doublestar.ValidatePattern(pat) {
 			return nil, fmt.Errorf("invalid glob pattern %q in \"paths\"", pat)
 		}
